@@ -201,8 +201,8 @@ def run(chk):
         for x in r.split(","):
             if x.startswith("r"): dist["run_kinds"]["rle"] += 1
             elif x.startswith("p"): dist["run_kinds"]["packed"] += 1
-    dimpl = common.chunked_parallel(pair.impl, dops, workers=8, chunk=2000)
-    dmodel = common.chunked_parallel(pair.model, dops, workers=8, chunk=2000)
+    dimpl = common.chunked_parallel(pair.impl, dops, workers=8, chunk=250)
+    dmodel = common.chunked_parallel(pair.model, dops, workers=8, chunk=250)      # runs of up to 2^21 values: keep a driver process small
     for o, a, b, (w, r, stream, vals) in zip(dops, dimpl, dmodel, dmeta):
         if a != b:
             tie_breaks.append({"op": o[:300], "runs": r[:300], "impl": a[:300], "model": b[:300]})
